@@ -9,8 +9,8 @@ RULE = ('random histories (builds, connectives, collections, swaps) with a rejec
         'a lowered threshold); a case is (kind of rejected call, history position); all are '
         'non-trivial when the manager holds at least one non-constant function')
 EXHAUSTIVE = {'quick': False, 'thorough': False}
-ASSUMES = ['after a syntax error met in the middle of a formula only the outcome is compared with the '
-           'model (dd translates while it parses; the model parses first); the state is checked by the oracle',
+ASSUMES = ['formulas rejected late (syntax error or illegal character after a valid prefix) are replayed on the '
+           'LR model with the regenerated PLY tables: the exact state is compared',
            'unreadable files: JSON files with an unknown child/root id, a bad level or a parent before its '
            'children, loaded through dd.autoref']
 
@@ -83,9 +83,13 @@ def bad_calls(M, rng, held):
             toks += ['~', t[1:]]
         else:
             toks.append(t)
+    from ..impl import Text
     out.append(('undeclared-variable', 'add_expr', (Spellings(toks),)))
-    out.append(('undeclared-variable', 'add_expr', (Spellings(toks),)))
-    out.append(('syntax-error', 'add_expr', (Spellings(toks[:-2] + [')', ')']),)))
+    out.append(('undeclared-variable', 'add_expr_lr', (Text(' '.join(toks)),)))
+    # rejected late: the nodes of the valid prefix exist; the LR model follows that state
+    out.append(('syntax-error', 'add_expr_lr', (Text(' '.join(toks[:-2] + [')', ')'])),)))
+    out.append(('syntax-error', 'add_expr_lr', (Text(' '.join(toks[:-2]) + ' v0 v1'),)))
+    out.append(('syntax-error', 'add_expr_lr', (Text(' '.join(toks[:-2]) + ' $ v0'),)))
     used = [v for v in range(n) if any(b._succ[k][0] == b.vars[vname(v)] for k in b._succ)]
     if used:
         out.append(('variable-in-use', 'undeclare', ([rng.choice(used)],)))
@@ -147,11 +151,6 @@ def history(ctx, n, steps, reordering):
             before_vars = dict(M.b.vars)
             before_cfg = M.b._last_len is None
             r = M.op(name, *args)
-            if kind == 'syntax-error':
-                # dd translates while it parses: the nodes of the valid prefix exist
-                # when the error is met; the model parses first.  Only the outcome
-                # is compared, the state is checked by the oracle, and the history ends.
-                s.outcome_only()
             ctx.case((kind, name, reordering, len(s.lines)), bool(held))
             ctx.count('rejected:' + kind)
             res = s.last_result()
@@ -180,7 +179,7 @@ def history(ctx, n, steps, reordering):
         if bad:
             ctx.violation('C17:not-canonical', f'after step {step}: {bad[:3]}', M.case())
             break
-        if kind is not None and kind != 'syntax-error':
+        if kind is not None:
             M.op('assert_consistent')
             if not s.ok():
                 ctx.violation('C17:not-canonical', f'after step {step}: BDD.assert_consistent() fails', M.case())
@@ -188,9 +187,6 @@ def history(ctx, n, steps, reordering):
         if sorted(M.b.vars.values()) != list(range(len(M.b.vars))):
             ctx.violation('C17:order-not-bijection', f'{M.b.vars}', M.case())
             break
-        if kind == 'syntax-error':
-            ctx.sample(dict(stream=s.label, first_lines=s.lines[:10]))
-            return
     for u, c in held.items():
         for _ in range(c):
             M.op('decref', u)
@@ -221,9 +217,8 @@ def failed_retry(ctx, n, kind):
     for j in range(n):
         toks += ['(', f'v{j}', rng.choice(['#', '<=>', '/\\', '\\/']), f'v{(j + 1) % n}', ')', rng.choice(['#', '\\/'])]
     toks += [f'v{n + 2}'] if kind == 'undeclared' else ['(', ')']
-    M.op('add_expr', Spellings(toks))
-    if kind != 'undeclared':
-        s.outcome_only()
+    from ..impl import Text
+    M.op('add_expr_lr', Text(' '.join(toks)))
     res = s.last_result()
     ctx.case(('failed-retry', n, kind, tuple(toks)), True)
     ctx.count('failed-retry:' + kind)
